@@ -194,7 +194,7 @@ CHECKS = {
         rule=("cases are scenarios of 6-40 steps; non-trivial = a convergence check was evaluated AND (a writer step ran while a STREAM subscription was parked between its start and its sync, "
               "or a writer was parked between tree write and feed while a subscription's walk was released); distinct = distinct hash of the scenario"),
         assumptions=COMMON + [SYNCTEST_ASSUMPTION],
-        parts=[dict(name="random", run="TestC04Random", checks=dict(quick=3000, thorough=15000), shards=dict(quick=1, thorough=16)),
+        parts=[dict(name="random", run="TestC04Random", checks=dict(quick=3000, thorough=50000), shards=dict(quick=1, thorough=16)),
                # free-running: one writer goroutine per target + staggered subscribers on the real scheduler inside a synctest bubble,
                # no gates; convergence / single sync / no invention at the final quiescent point (synctest.Wait)
                dict(name="stress", run="TestC04Stress", rapid=False, args=dict(quick=["-c04.stress=400"], thorough=["-c04.stress=6000"]), shards=dict(quick=1, thorough=8))],
@@ -209,7 +209,7 @@ CHECKS = {
         level_note="independent matcher gn.Matches + completePath written from the documentation; in-memory stream double",
         rule=("cases are scenarios of 8-30 steps; non-trivial = a completed round with a non-empty result whose subscription has a glob in a non-final position or targets '*'; distinct = distinct hash of the scenario"),
         assumptions=COMMON + [SYNCTEST_ASSUMPTION],
-        parts=[dict(name="random", run="TestC05Random", checks=dict(quick=3000, thorough=15000), shards=dict(quick=1, thorough=16))],
+        parts=[dict(name="random", run="TestC05Random", checks=dict(quick=3000, thorough=50000), shards=dict(quick=1, thorough=16))],
     ),
     "C07": dict(
         engine="subprop",
@@ -220,7 +220,7 @@ CHECKS = {
         level_note="ACL double implements subscribe.ACL/RPCACL from the table; user identity travels in the stream context",
         rule=("cases are scenarios of 8-36 steps; non-trivial = a '*' subscription for which, after its sync, updates were fed both for a denied and for an allowed target; distinct = distinct hash of the scenario"),
         assumptions=COMMON + [SYNCTEST_ASSUMPTION],
-        parts=[dict(name="random", run="TestC07Random", checks=dict(quick=3000, thorough=15000), shards=dict(quick=1, thorough=16))],
+        parts=[dict(name="random", run="TestC07Random", checks=dict(quick=3000, thorough=50000), shards=dict(quick=1, thorough=16))],
     ),
     "C08": dict(
         engine="subprop",
@@ -232,7 +232,7 @@ CHECKS = {
         level_note="the backlog model starts at a drain (queue empty, sender idle) and needs the streaming filter relation (decided by C06); exported queue size only bounded from above",
         rule=("cases are scenarios of 8-40 steps; non-trivial = while a subscriber was stalled a burst contained >=2 updates to one leaf (coalesced) and a delete; distinct = distinct hash of the scenario"),
         assumptions=COMMON + [SYNCTEST_ASSUMPTION],
-        parts=[dict(name="random", run="TestC08Random", checks=dict(quick=3000, thorough=15000), shards=dict(quick=1, thorough=16))],
+        parts=[dict(name="random", run="TestC08Random", checks=dict(quick=3000, thorough=50000), shards=dict(quick=1, thorough=16))],
     ),
     "C11": dict(
         engine="coalesceprop",
@@ -425,7 +425,7 @@ CHECKS = {
         rule=("cases are histories of 1-60 steps over 1-2 targets; non-trivial = the history contains an update at or below the stored timestamp of an existing leaf "
               "AND a delete that removed at least one leaf; distinct = distinct hash of the scenario"),
         assumptions=COMMON + ["cache.Now is stubbed with a scenario-controlled clock", "single goroutine: every step is a quiescent point"],
-        parts=[dict(name="random", run="TestC02Random", checks=dict(quick=6000, thorough=30000), shards=dict(quick=1, thorough=16))],
+        parts=[dict(name="random", run="TestC02Random", checks=dict(quick=6000, thorough=60000), shards=dict(quick=1, thorough=16))],
     ),
     "C03": dict(
         engine="cacheprop",
@@ -438,7 +438,7 @@ CHECKS = {
         rule=("cases are histories of 1-60 steps over 1-3 targets; non-trivial = a delete that produced >=2 feed entries for leaves stored through one shared prefix object, "
               "or a multi-entry notification mixing accepted and rejected updates; distinct = distinct hash of the scenario"),
         assumptions=COMMON + ["cache.Now is stubbed with a scenario-controlled clock", "single goroutine: every step is a quiescent point"],
-        parts=[dict(name="random", run="TestC03Random", checks=dict(quick=5000, thorough=25000), shards=dict(quick=1, thorough=16))],
+        parts=[dict(name="random", run="TestC03Random", checks=dict(quick=5000, thorough=40000), shards=dict(quick=1, thorough=16))],
     ),
     "C14": dict(
         engine="cacheprop",
@@ -451,8 +451,8 @@ CHECKS = {
         rule=("cases are histories of 1-60 steps over 2-4 targets; non-trivial = a Reset or Remove of a target holding >=2 top-level subtrees while another target holds a leaf at one of the same paths; "
               "distinct = distinct hash of the scenario"),
         assumptions=COMMON + ["cache.Now is stubbed with a scenario-controlled clock"],
-        parts=[dict(name="random", run="TestC14Random", checks=dict(quick=5000, thorough=25000), shards=dict(quick=1, thorough=16)),
-               dict(name="subscribers", engine="subprop", run="TestC14Sub", checks=dict(quick=2000, thorough=10000), shards=dict(quick=1, thorough=8))],
+        parts=[dict(name="random", run="TestC14Random", checks=dict(quick=5000, thorough=40000), shards=dict(quick=1, thorough=16)),
+               dict(name="subscribers", engine="subprop", run="TestC14Sub", checks=dict(quick=2000, thorough=30000), shards=dict(quick=1, thorough=8))],
     ),
     "C15": dict(
         engine="cacheprop",
@@ -470,7 +470,7 @@ CHECKS = {
         assumptions=COMMON + ["cache.Now is stubbed with a scenario-controlled clock",
                               "latency.Now is stubbed with a scenario-controlled clock; UpdateReset is called exactly once per period (its documented use)",
                               "race part: workloads are seeded, schedules are the real scheduler's (not reproducible); SetClient and option registration happen before the goroutines start, as their documentation requires"],
-        parts=[dict(name="random", run="TestC15Random", checks=dict(quick=5000, thorough=25000), shards=dict(quick=1, thorough=16)),
+        parts=[dict(name="random", run="TestC15Random", checks=dict(quick=5000, thorough=40000), shards=dict(quick=1, thorough=16)),
                dict(name="latency", run="TestC15Latency", checks=dict(quick=5000, thorough=50000), shards=dict(quick=1, thorough=8)),
                dict(name="race", run="TestC15Race", rapid=False, race=True,
                     args=dict(quick=["-c15.rounds=150"], thorough=["-c15.rounds=2000"]), shards=dict(quick=1, thorough=4))],
